@@ -61,6 +61,31 @@ pub fn expected_rejections(h: &HirSpec) -> Vec<(String, &'static str, String)> {
             }
         }
     }
+    // a component whose type name is one the generated code itself uses unqualified: every file that mentions either is suspect
+    for name in h.schemas.keys() {
+        let ty = mir_rust::ToRustIdent::to_rust_struct(&name.as_str()).0;
+        if ["Result", "Option", "Vec", "String", "Box"].contains(&ty.as_str()) {
+            out.push(("*".into(), "component_shadows_prelude", format!("component {} is emitted as `{}`, which shadows the standard type of that name", name, ty)));
+        }
+    }
+    // an operation whose method name the client type already has
+    for o in &h.operations {
+        let m = mir_rust::ToRustIdent::to_rust_ident(&o.name.as_str()).0;
+        let taken = match m.as_str() {
+            "new" | "from_env" => true,
+            "with_auth" | "authenticate" => !h.security.is_empty(),
+            _ => false,
+        };
+        if taken && m == "authenticate" {
+            // every request module calls self.client.authenticate(r): the call becomes ambiguous everywhere
+            out.push(("*".into(), "operation_named_like_client_method", format!("operation {} becomes method `authenticate`, which every request module calls on the client", o.name)));
+        }
+        if taken {
+            for f in [format!("src/request/{}.rs", o.file_name()), "src/lib.rs".to_string(), format!("examples/{}.rs", o.file_name())] {
+                out.push((f, "operation_named_like_client_method", format!("operation {} becomes method `{}`, which the client type defines itself", o.name, m)));
+            }
+        }
+    }
     // a type name that is mentioned but has no model file (the closure finding of C07, seen here as E0412/E0425/E0432)
     for o in &h.operations {
         let file = format!("src/request/{}.rs", o.file_name());
